@@ -486,9 +486,15 @@ Definition filter_mask (d : dset) (conds : list (string * payload)) : option (li
     | Some m, Some ob => if otwo ob then None else Some (map2 andb m (map (fun r => value_eqb (cval r) (snd c)) (orows ob)))
     | _, _ => None
     end) conds (Some (repeat true (num_obs d))).
+(* numpy.unique: NaNs collapse into one *)
+Definition unique_eqb (a b : payload) : bool :=
+  match a, b with
+  | PNum [DNaN], PNum [DNaN] => true
+  | _, _ => value_eqb a b
+  end.
 Definition unique_vals (d : dset) (p : string) : option (list payload) :=
   match field_obj d p with
-  | Some ob => if otwo ob then None else Some (uniq_first value_eqb [] (map cval (orows ob)))
+  | Some ob => if otwo ob then None else Some (uniq_first unique_eqb [] (map cval (orows ob)))
   | None => None
   end.
 
@@ -734,14 +740,29 @@ Definition classify (d : dset) (o : op) (b : obs) : Z :=
   | _, _ => 1%Z
   end.
 
-(* verdict of one history: 0 = every step equals the specification; otherwise
+(* the precondition of extend / merge_with in the model: the two datasets share objects in the same way *)
+Fixpoint congruent_all (d : dset) (os : list dset) : bool :=
+  match os with
+  | [] => true
+  | o :: r => one_to_one (all_pairs d o)
+              && match extend all_off d o with Some d' => congruent_all d' r | None => true end
+  end.
+Definition in_domain (d : dset) (o : op) : bool :=
+  match o with
+  | Extend x => congruent_all d [x]
+  | Merge os _ => congruent_all d os
+  | _ => true
+  end.
+
+(* verdict of one history: 0 = every step equals the specification; 15 + 16 * step = the history left
+   the domain of the model at that step (incongruent sharing) and is not judged further; otherwise
    16 * (index of the first deviating step) + class   (1 unexplained, 2 subset-sum, 3 unstable sort,
    4 fill rows for an object with references, 5 sharing lost) *)
 Fixpoint check_from (d : dset) (k : Z) (l : list (op * obs)) : Z :=
   match l with
   | [] => 0%Z
   | (o, b) :: r =>
-      let bad := (16 * k + classify d o b)%Z in
+      let bad := (16 * k + (if in_domain d o then classify d o b else 15))%Z in
       match step all_off d o, b with
       | None, ORaise => 0%Z                                    (* both refuse; the history ends *)
       | None, _ => bad
